@@ -41,12 +41,18 @@ type c3operand struct {
 	konst string // constant descriptor
 }
 
+type c3inc struct {
+	op  c3operand
+	lab c3ident
+}
+
 type c3arg struct {
-	kind byte // T P V L R
+	kind byte // T P V L R H
 	ty   types.Type
 	op   c3operand
 	lab  c3ident
 	void bool
+	incs []c3inc
 }
 
 func c3Operand(s string) c3operand {
@@ -91,6 +97,11 @@ func c3Inst(named map[string]*types.StructType, s string) c3inst {
 				arg.op = c3Operand(a[1:])
 			case 'L':
 				arg.lab = c3Ident(a[1:])
+			case 'H':
+				for _, it := range strings.Split(a[1:], "&") {
+					f := strings.SplitN(it, "~", 2)
+					arg.incs = append(arg.incs, c3inc{c3Operand(f[0]), c3Ident(f[1])})
+				}
 			case 'R':
 				if len(a) == 1 {
 					arg.void = true
@@ -105,6 +116,7 @@ func c3Inst(named map[string]*types.StructType, s string) c3inst {
 }
 
 var c3BinOps = []string{"add", "sub", "mul", "udiv", "sdiv", "urem", "srem", "shl", "lshr", "ashr", "and", "or", "xor"}
+var c3Casts = []string{"trunc", "zext", "sext", "fptrunc", "fpext", "fptoui", "fptosi", "uitofp", "sitofp", "ptrtoint", "inttoptr", "bitcast", "addrspacecast"}
 var c3Preds = []enum.IPred{enum.IPredEQ, enum.IPredNE, enum.IPredUGT, enum.IPredUGE, enum.IPredULT, enum.IPredULE, enum.IPredSGT, enum.IPredSGE, enum.IPredSLT, enum.IPredSLE}
 
 func core3Build(a []string) *ir.Func {
@@ -215,6 +227,40 @@ func core3Build(a []string) *ir.Func {
 				obj = &ir.TermCondBr{}
 			case in.row == 29:
 				obj = &ir.TermUnreachable{}
+			case in.row >= 30 && in.row <= 42:
+				to := in.args[1].ty
+				switch c3Casts[in.row-30] {
+				case "trunc":
+					obj = &ir.InstTrunc{To: to}
+				case "zext":
+					obj = &ir.InstZExt{To: to}
+				case "sext":
+					obj = &ir.InstSExt{To: to}
+				case "fptrunc":
+					obj = &ir.InstFPTrunc{To: to}
+				case "fpext":
+					obj = &ir.InstFPExt{To: to}
+				case "fptoui":
+					obj = &ir.InstFPToUI{To: to}
+				case "fptosi":
+					obj = &ir.InstFPToSI{To: to}
+				case "uitofp":
+					obj = &ir.InstUIToFP{To: to}
+				case "sitofp":
+					obj = &ir.InstSIToFP{To: to}
+				case "ptrtoint":
+					obj = &ir.InstPtrToInt{To: to}
+				case "inttoptr":
+					obj = &ir.InstIntToPtr{To: to}
+				case "bitcast":
+					obj = &ir.InstBitCast{To: to}
+				case "addrspacecast":
+					obj = &ir.InstAddrSpaceCast{To: to}
+				}
+			case in.row == 43:
+				obj = &ir.InstPhi{Typ: in.args[0].ty}
+			case in.row == 44:
+				obj = &ir.InstFreeze{Typ: in.args[0].ty}
 			default:
 				panic("harness: bad row")
 			}
@@ -270,6 +316,38 @@ func core3Build(a []string) *ir.Func {
 		case *ir.TermCondBr:
 			x.Cond, x.TargetTrue, x.TargetFalse = operand(types.I1, as[0].op), block(as[1].lab), block(as[2].lab)
 		case *ir.TermUnreachable:
+		case *ir.InstPhi:
+			for _, inc := range as[1].incs {
+				x.Incs = append(x.Incs, &ir.Incoming{X: operand(as[0].ty, inc.op), Pred: block(inc.lab)})
+			}
+		case *ir.InstFreeze:
+			x.X = operand(as[0].ty, as[0].op)
+		case *ir.InstTrunc:
+			x.From = operand(as[0].ty, as[0].op)
+		case *ir.InstZExt:
+			x.From = operand(as[0].ty, as[0].op)
+		case *ir.InstSExt:
+			x.From = operand(as[0].ty, as[0].op)
+		case *ir.InstFPTrunc:
+			x.From = operand(as[0].ty, as[0].op)
+		case *ir.InstFPExt:
+			x.From = operand(as[0].ty, as[0].op)
+		case *ir.InstFPToUI:
+			x.From = operand(as[0].ty, as[0].op)
+		case *ir.InstFPToSI:
+			x.From = operand(as[0].ty, as[0].op)
+		case *ir.InstUIToFP:
+			x.From = operand(as[0].ty, as[0].op)
+		case *ir.InstSIToFP:
+			x.From = operand(as[0].ty, as[0].op)
+		case *ir.InstPtrToInt:
+			x.From = operand(as[0].ty, as[0].op)
+		case *ir.InstIntToPtr:
+			x.From = operand(as[0].ty, as[0].op)
+		case *ir.InstBitCast:
+			x.From = operand(as[0].ty, as[0].op)
+		case *ir.InstAddrSpaceCast:
+			x.From = operand(as[0].ty, as[0].op)
 		default:
 			// binary instructions: X and Y through reflection-free setters
 			xv, yv := operand(as[0].ty, as[0].op), operand(as[0].ty, as[1].op)
